@@ -16,11 +16,13 @@ import AsynqModel.Core.Syntax
   instance of a SUBCLASS of tuple/list/dict, the result of an async_proxy function that returns a future / None / a container).  The same
   syntax is interpreted on the real library by harness/checks/c15.py.
 
-  The code as it is makes the two engines differ in four places, all modelled as they are (Theorems/C15.lean section B):
+  The code as it is makes the two engines differ in the places below, all modelled as they are (Theorems/C15.lean section B;
+  two more: `Ys.gco` - a child whose explicit asyncio_fn is a generator-based coroutine is rejected by resolve_awaitables -,
+  `observeR true` - a `pure=True` METHOD has no `.asyncio` attribute: PureAsyncDecoratorBinder defines none):
   BaseException-only errors of awaited children (`except Exception` in convert_asynq_to_async), container subclasses
   (`isinstance` in resolve_awaitables vs `type(..) is` in unwrap / extract_futures), async_proxy functions returning a
-  non-future (`await fut` in unwrap_coroutine), futures that are not ConstFutures - an ErrorFuture, a lazy `Future(provider)` -
-  (`Ys.ofut`: resolve_awaitables knows ConstFuture only and raises TypeError, `unwrap` calls `.value()`).
+  non-future (`await fut` in unwrap_coroutine).  (Futures that are not ConstFutures - an ErrorFuture, a lazy `Future(provider)`,
+  `Ys.ofut` - were a fourth place until /repo f8c8dff: both engines now call `.value()`.)
 
   Trusted / assumed (DESIGN.md 5.C15 L): the asyncio event loop (`await x` = run x to completion,
   `ensure_future` runs the coroutine in a COPY of the current contextvars context, `asyncio.wait(ALL_COMPLETED)`
@@ -122,6 +124,11 @@ inductive Ys where
   | ofut (isErr : Bool) (n : Nat)
                                -- a future made in the yield that is NOT a ConstFuture (asynq/futures.py):
                                --   isErr: ErrorFuture(user error n);  otherwise Future(lambda: n), computed by `.value()`
+  | gco (y : Ys)               -- the child task y (`.task c p`, c declared with an explicit `asyncio_fn=g`) where g is written as
+                               --   a GENERATOR-BASED coroutine (`@types.coroutine def g(..): r = yield from ...; return r`):
+                               --   under asynq the AsyncTask of the function as ever; while the flag is on `.asynq()` gives
+                               --   `g(args)`, a generator object - `isinstance(x, collections.abc.Awaitable)` is False for it
+                               --   (`inspect.isawaitable(x)` is True, `await x` accepts it)
 inductive YsL where
   | nil
   | cons (y : Ys) (l : YsL)
@@ -192,6 +199,7 @@ def Ys.labelsR : Ys → List Nat
   | .sub _ => []
   | .pval y => Ys.labelsR y
   | .ofut _ _ => []
+  | .gco y => Ys.labelsR y
 def YsL.labelsR : YsL → List Nat
   | .nil => []
   | .cons y l => Ys.labelsR y ++ YsL.labelsR l
@@ -212,6 +220,7 @@ def Ys.labelsA : Ys → List Nat
   | .sub y => Ys.labelsA y
   | .pval _ => []
   | .ofut _ _ => []
+  | .gco _ => []               -- the generator object is never started: nothing of the child is awaited
 def YsL.labelsA : YsL → List Nat
   | .nil => []
   | .cons y l => Ys.labelsA y ++ YsL.labelsA l
@@ -324,6 +333,7 @@ def ysR : Ys → St → Out × St
   | .pval y, s => ysR y s                      -- AsyncProxyDecorator._call_pure: `return self.fn(...)` = the object itself is yielded
   | .ofut isErr n, s =>                        -- `unwrap`: `isinstance(value, FutureBase)`: `value.value()` - an ErrorFuture raises
     if isErr then (.err (.u n), s) else (.ok (.a n), s)   --   its error, a lazy Future calls its provider and returns the value
+  | .gco y, s => ysR y s                       -- flag off: `_call_pure` builds the AsyncTask of `self.fn` - `asyncio_fn` is not read
 def yslR : YsL → St → OutL × St
   | .nil, s => (.ok [], s)
   | .cons y l, s =>
@@ -438,6 +448,13 @@ def resolveA : Ys → St → Out × St
     else resolveA y s                   -- flag off: `self.fn(...)` = the object itself
   | .ofut isErr n, s =>                 -- `isinstance(x, (ConstFuture, ErrorFuture, Future)): return x.value()`
     if isErr then (.err (.u n), s) else (.ok (.a n), s)
+  | .gco y, s =>
+    -- flag on: `_call_pure` returned `self.asyncio(...)` = `self.asyncio_fn(*args)` = the generator object of a generator-based
+    -- coroutine (nothing of it has run).  `isinstance(x, Awaitable)` is False (a generator has no `__await__`), it is no
+    -- future, no batch item, no list / tuple / dict, not None: the final `raise TypeError("Unknown structured awaitable
+    -- type: ", type(x))`; the generator is never started (no `afn`, no `start` of the child)
+    if s.mode then (.err .typeerr, s)
+    else resolveA y s                   -- flag off: x is the AsyncTask (the `.task` clause: TypeError as well)
 /-- `_gather(awaitables)`: every awaitable becomes a task (`ensure_future`: runs in a COPY of the context, so what it
     does to the flag is invisible here), `asyncio.wait(ALL_COMPLETED)`, then `[task.result() for task in tasks]` -/
 def gatherA : YsL → St → OutL × St
@@ -488,6 +505,7 @@ def shapeOk : Ys → Val → Bool
   | .sub y, v => shapeOk y v
   | .pval y, v => shapeOk y v
   | .ofut _ n, v => v == .a n
+  | .gco y, v => shapeOk y v
 def shapeOkL : YsL → List Val → Bool
   | .nil, [] => true
   | .cons y l, v :: vs => shapeOk y v && shapeOkL l vs
@@ -559,6 +577,17 @@ def observe1 (cv : Conv) (c : Call) (p : Prog) : Obs :=
 def allConvs : List Conv := [.call, .value, .aio, .aiorun, .aiotask]
 
 def observe (c : Call) (p : Prog) : List Obs := allConvs.map (fun cv => observe1 cv c p)
+
+/-- The ROOT of a case reached as `obj.m.asyncio(args)` / `Cls.m.asyncio(obj, args)` where `m` is declared
+    `@asynq(pure=True)` inside a class (`pm = true`): attribute access on a method goes through `DecoratorBase.__get__`, which
+    returns `binder_cls(self, instance)` = a `PureAsyncDecoratorBinder` (decorators.py); that class defines `is_pure_async_fn`
+    only - `asyncio` is defined by `AsyncDecoratorBinder`, the binder of `@asynq()` - so the expression raises AttributeError
+    before anything runs: no event, the outcome is that error (`Err.other`), the flag is never touched.  `m(args)` and
+    `m(args).value()` (conventions call / value) and a pure method as a CHILD (`self.m(args)` while the flag is on is
+    `PureAsyncDecorator._call_pure`: `return self.asyncio(...)` on the decorator itself) are those of `Kind.pure`. -/
+def observeR (pm : Bool) (c : Call) (p : Prog) : List Obs :=
+  if pm then (observe c p).map (fun ob => if ob.conv.isAio then { ob with out := .err .other, log := [] } else ob)
+  else observe c p
 
 /-! ## The property C15 as a Boolean observer over the observations of one program -/
 
@@ -740,6 +769,7 @@ def Ys.noSync : Ys → Bool
   | .dict _ l => YsL.noSync l
   | .sub y => Ys.noSync y
   | .pval y => Ys.noSync y
+  | .gco y => Ys.noSync y
   | _ => true
 def YsL.noSync : YsL → Bool
   | .nil => true
@@ -759,6 +789,7 @@ def Ys.excOnly : Ys → Bool
   | .dict _ l => YsL.excOnly l
   | .sub y => Ys.excOnly y
   | .pval y => Ys.excOnly y
+  | .gco y => Ys.excOnly y
   | _ => true
 def YsL.excOnly : YsL → Bool
   | .nil => true
@@ -779,6 +810,7 @@ def Ys.noRaiseB : Ys → Bool
   | .dict _ l => YsL.noRaiseB l
   | .sub y => Ys.noRaiseB y
   | .pval y => Ys.noRaiseB y
+  | .gco y => Ys.noRaiseB y
   | _ => true
 def YsL.noRaiseB : YsL → Bool
   | .nil => true
@@ -791,8 +823,9 @@ def Prog.safe (p : Prog) : Bool := p.excOnly || p.noRaiseB
 
 mutual
 /-- every yielded container is a plain tuple / list / dict (no instance of a subclass: `.sub`), every async_proxy function
-    returns one future (no `.pval`) and every future made in a yield is a ConstFuture (no `.ofut`): the second side condition of
-    the `_partial` theorems -/
+    returns one future (no `.pval`) and no explicit asyncio_fn of a yielded child is a generator-based coroutine (no `.gco`):
+    the second side condition of the `_partial` theorems (`.ofut` - ErrorFuture, lazy Future - is inside since the repair of
+    resolve_awaitables) -/
 def Prog.plainY : Prog → Bool
   | .yld _ y k h => Ys.plainY y && Prog.plainY k && Prog.plainY h
   | .sync _ child k h => Prog.plainY child && Prog.plainY k && Prog.plainY h
@@ -804,6 +837,7 @@ def Ys.plainY : Ys → Bool
   | .dict _ l => YsL.plainY l
   | .sub _ => false
   | .pval _ => false
+  | .gco _ => false
   | _ => true
 def YsL.plainY : YsL → Bool
   | .nil => true
@@ -838,6 +872,7 @@ def Ys.validCalls : Ys → Bool
   | .dict _ l => YsL.validCalls l
   | .sub y => Ys.validCalls y
   | .pval y => Ys.validCalls y
+  | .gco y => Ys.validCalls y
   | _ => true
 def YsL.validCalls : YsL → Bool
   | .nil => true
@@ -860,6 +895,7 @@ def Ys.live : Ys → List Nat
   | .dict _ l => YsL.live l
   | .sub y => Ys.live y
   | .pval y => Ys.live y
+  | .gco y => Ys.live y
   | _ => []
 def YsL.live : YsL → List Nat
   | .nil => []
@@ -914,5 +950,9 @@ def specClauseP (c : Call) (p : Prog) (obs : List Obs) : String := specClausePWi
 
 /-- `Spec.C15` for a case -/
 def specP (c : Call) (p : Prog) (obs : List Obs) : Bool := specClauseP c p obs == "ok"
+
+/-- the same for a case whose root may be a `pure=True` method (`observeR`): what Drv/Asyncio.lean evaluates -/
+def specClausePR (pm : Bool) (c : Call) (p : Prog) (obs : List Obs) : String := specClausePWith (observeR pm c p) c p obs
+def specPR (pm : Bool) (c : Call) (p : Prog) (obs : List Obs) : Bool := specClausePR pm c p obs == "ok"
 
 end AsynqModel.Asyncio
